@@ -173,7 +173,9 @@ class Trajectory(Container):
             raise ValueError(
                 'Trajectory must have a flight_time field for interpolation'
             )
-        orig_time = self._data['flight_time']
+        # Only the points in use take part: the buffers of a trajectory that
+        # was built by appending points are larger than its length.
+        orig_time = self._data['flight_time'][: self._size]
 
         new_traj = Trajectory(len(new_time), fieldsets=list(self._fieldsets))
         for name, field in self._data_dictionary.items():
@@ -197,7 +199,7 @@ class Trajectory(Container):
                     new_traj._data[name] = np.interp(
                         new_time,
                         orig_time,
-                        self._data[name],
+                        self._data[name][: self._size],
                         left=np.nan,
                         right=np.nan,
                     )
